@@ -147,6 +147,9 @@ CHECKS = {
                  {"name": "VerifC07Failover", "quick": {"events": 3, "stalekinds": 2}, "thorough": {"events": 4, "stalekinds": 2}, "replay": "interpreted", "max-paths": 3000000,
                   "covers": ["done", "report", "shrink", "expand", "expiry", "lost-leadership", "election", "ineligible-refused"],
                   "targets": ["metadataAPI).ReportLeader", "metadataAPI).ShrinkISR", "metadataAPI).ExpandISR", "failoverStatus).report", "metadataAPI).electNewPartitionLeader", "metadataAPI).selectPartitionLeader"]},
+                 {"name": "VerifC07Concurrent", "quick": {"preemptions": 1}, "thorough": {"preemptions": 2}, "replay": "interpreted", "max-paths": 3000000,
+                  "covers": ["done", "election", "isr-change-and-election"],
+                  "targets": ["metadataAPI).ReportLeader", "metadataAPI).ShrinkISR", "metadataAPI).ExpandISR", "metadataAPI).electNewPartitionLeader"]},
              ]},
         ],
     },
@@ -209,7 +212,7 @@ CHECKS = {
             {"pkg": "./server", "overlay": "server", "pkgname": "server",
              "harnesses": [
                  {"name": "VerifC11Cursors", "quick": {"steps": 4}, "thorough": {"steps": 5}, "replay": "interpreted", "max-paths": 3000000,
-                  "covers": ["done", "set", "fetch", "purge", "clean", "pause-resume", "restart", "cleaner-tick", "leader-change"],
+                  "covers": ["set-failed", "done", "set", "fetch", "purge", "clean", "pause-resume", "restart", "cleaner-tick", "leader-change"],
                   "targets": ["cursorManager).SetCursor", "cursorManager).GetCursor", "cursorManager).getLatestCursorOffset", "apiServer).SubscribeInternal", "ReverseReader).ReadMessage"]},
                  {"name": "VerifC11Concurrent", "quick": {"preemptions": 1}, "thorough": {"preemptions": 2}, "replay": "interpreted", "max-paths": 3000000,
                   "covers": ["done"], "targets": ["cursorManager).SetCursor", "cursorManager).GetCursor", "cursorManager).getLatestCursorOffset"]},
@@ -223,7 +226,7 @@ CHECKS = {
         "groups": [
             {"pkg": "./server", "overlay": "server", "pkgname": "server",
              "harnesses": [
-                 {"name": "VerifC12Assignments", "quick": {"members": 3, "steps": 4}, "thorough": {"members": 3, "steps": 5},
+                 {"name": "VerifC12Assignments", "quick": {"members": 3, "steps": 4}, "thorough": {"members": 3, "steps": 5}, "map_order_dependent": True,
                   "max-paths": 3000000,
                   "covers": ["done", "join", "leave", "stream-deleted"],
                   "targets": ["consumerGroup).balanceAssignmentsForStream", "consumerGroup).removeConsumer", "consumerGroup).StreamDeleted", "consumerGroup).GetAssignments"]},
@@ -257,6 +260,7 @@ CHECKS = {
              "env": {"VERIF_MASTER_KEY": "0123456789abcdef0123456789abcdef"},
              "harnesses": [
                  {"name": "VerifC17RoundTrip", "quick": {"maxlen": 8}, "thorough": {"maxlen": 32}, "covers": ["done"], "targets": ["LocalEncryptionHandler).Seal", "LocalEncryptionHandler).Read"]},
+                 {"name": "VerifC17Batch", "quick": {"maxlen": 3}, "thorough": {"maxlen": 6}, "covers": ["done"], "targets": ["LocalEncryptionHandler).Seal", "LocalEncryptionHandler).Read"]},
                  {"name": "VerifC17ReadTotal", "quick": {"maxlen": 6}, "thorough": {"maxlen": 48}, "covers": ["done", "error"], "targets": ["LocalEncryptionHandler).Read"]},
                  {"name": "VerifC17Truncated", "covers": ["done"], "targets": ["LocalEncryptionHandler).decryptData"]},
                  {"name": "VerifC17Tampered", "covers": ["done"], "targets": ["LocalEncryptionHandler).Read"]},
@@ -300,7 +304,7 @@ CHECKS = {
              ]},
             {"pkg": "./server", "overlay": "server", "pkgname": "server",
              "harnesses": [
-                 {"name": "VerifC19ServerGates", "covers": ["done", "on", "off", "default", "config-file-or-env", "programmatic"], "replay": "interpreted",
+                 {"name": "VerifC19ServerGates", "covers": ["interval-unset", "done", "on", "off", "default", "config-file-or-env", "programmatic"], "replay": "interpreted",
                   "targets": ["parseTelemetryConfig", "Server).Start", "NewDefaultConfig", "Collector).sendTelemetry"]},
              ]},
         ],
@@ -382,7 +386,7 @@ META = {
     "C19": {"text": "Symbolic execution of the real collector (New/Start/run/sendTelemetry/collectPayload/loadOrCreateInstanceID) with a symbolic enabled flag, a virtual clock that lets two reporting intervals pass, memFS for the instance-id file and the HTTP stack as an effect recorder: disabled => no request at all; enabled => endpoint fixed, JSON keys within the documented set, the data directory string (standing for everything the server passes in) absent from URL, headers and body. This is the thinnest check of the set: one symbolic boolean; its value is that it re-derives the key set and the data flow from the current source on every run.",
             "design_ref": "DESIGN.md §4 C19", "note": "the configuration-to-wire harness runs the real parseTelemetryConfig over a viper stand-in (independent symbolic answer per key) and the real Server.Start with the rest of the start-up as no-op stand-ins; what is not decided: viper's own env/file resolution, the real HTTP transport, what the OS reveals through runtime.Version()", "technique": TECH},
     "C17": {"text": "Bounded symbolic model checking of the framing and data flow of server-side encryption: Seal/Read round trip for every value up to the bound, Read total (error, never a panic) on every byte string up to the bound, on every truncation of a sealed value and on every corruption of the key-size byte. The cryptography itself is replaced by stand-ins and is not claimed.",
-            "design_ref": "DESIGN.md §4 C17", "note": "bounds: values 0-8 (32) bytes, arbitrary stored forms 0-6 (48) bytes; what is NOT decided: that the log never contains plaintext (needs the real cipher), tampering inside the AEAD/KWP blobs, distinct master keys; the leader-loop data flow (value handed to Append is the Seal output) is part of the C04/C16 partition harness", "technique": TECH},
+            "design_ref": "DESIGN.md §4 C17", "note": "bounds: values 0-8 (32) bytes, 2-3 values of 0-3 (6) bytes sealed before any is read (a leader batch), arbitrary stored forms 0-6 (48) bytes; what is NOT decided: that the log never contains plaintext (needs the real cipher), tampering inside the AEAD/KWP blobs, distinct master keys; the leader-loop data flow (value handed to Append is the Seal output) is part of the C04/C16 partition harness", "technique": TECH},
     "C10": {"text": "Bounded symbolic model checking of the implementation: partition.Subscribe with its real subscription loop on dense, compacted (offset gaps), retention-trimmed and empty logs, HW at or below the end, read-only or not; start position (5) x stop position (4) x direction (2) with symbolic offsets and timestamps; delivered sequence and termination compared with a specification function. Plus the timestamp look-ups on symbolic layouts (incl. an empty active segment) and a reader kept open across two compactions with symbolic keys.",
             "design_ref": "DESIGN.md §4 C10", "note": "bounds: 4 messages (one per segment) per shape, offsets in [-1,newest+2], timestamps in [0,50] against message times 10..40; look-ups: 3-5 messages, segment size 40..200; reverse x stop-timestamp not asserted", "technique": TECH},
     "C13": {"text": "Bounded symbolic model checking of the implementation: partition.Subscribe with its real subscription-loop goroutines on a real commit log; the history of group subscribes (two consumer ids, so the same id can return; epochs arbitrary 64-bit values decided by the solver), client departures and message deliveries is explored exhaustively within the bound and compared with a holder model at every quiescent point.",
